@@ -5,6 +5,10 @@ CLAIMED = {
         "note": "Trusted: CrossHair's int/str/list models, z3, the 12-line reference oracle (self-tested against the real code on fixed cases). Template sources are a finite skeleton family, collections <= 4-5 items, nil limit/offset is don't-care.",
     },
 }
+CLAIMED["C06"] = {
+    "text": "Inductive bounded model checking: from any render context whose tracked product (carry x loop-stack lengths) equals the true product P <= N (symbolic carry, 0..2 symbolic enclosing loops), ONE real repeating construct (for, tablerow, include/render with array, plain render/include/call/with/if/case, liquid) runs around a probe tag over a collection of symbolic length with a symbolic limit N; z3 decides on every path that it raises LoopIterationLimitError iff P*len > N before the block runs, else the block runs len times seeing P*len and the caller's product is restored. Whole-render nests of depth 2-3 (20 skeletons) cross-check the composition. All conditions exhaust their path tree.",
+    "note": "Trusted: CrossHair/z3; the probe tag registered in the harness environment; induction argument (post-state of a step has the pre-state's shape). Bounds: carry and lengths 1..6 (1..12 thorough), n <= 4 (8), N <= 200; skeleton family listed in harness/c06.py.",
+}
 NOT_APPLICABLE = {
     "C11": "delimiters flow only into re.escape/re.compile and functools.lru_cache keys (C code needing concrete values): no dimension is left for a solver to decide; enumerating delimiter sets would be bounded testing, a different technique (DESIGN.md §6)",
 }
